@@ -3,7 +3,7 @@ VIEW View
 CONSTANTS
   Streams = {1, 3}
   Role = "server"
-  Bud <- BudQuick
+  Bud <- BudSteps
   MaxInq = 2
   MaxBurst = 2
   SetVals = {0, 1}
@@ -11,11 +11,11 @@ CONSTANTS
   AckVals = {100, 101}
   GoAwayIds = {0, 2147483647}
   Codes = {0, 11}
-  AbruptCodes = {2}
+  AbruptCodes = {0, 2}
   AllowEof = TRUE
   LocalVals = {1}
   HarnessPing = FALSE
-  Atomic = TRUE
+  Atomic = FALSE
   ExportLen = 0
 INVARIANT InvAssert
 INVARIANT InvC14Acks
